@@ -146,7 +146,7 @@ static void run_field(const FieldOps& f, long round, Rng& r, bool thorough) {
     if (!moving_layout) { std::unique_ptr<PDU> probe(g_make[f.cls]()); u32 s0 = probe->size(); try { f.set(*probe, 1, r); } catch (...) {} if (probe->size() != s0) { cnt("pairs_option_setter(C04)"); return; } }
     poke_others(o, f.cls, f.key, r, state);
     std::vector<u64> vals; u64 mx = W >= 64 ? ~0ULL : ((1ULL << W) - 1);
-    if (W <= 8 || (thorough && W <= 16)) for (u64 v = 0; v <= mx; ++v) vals.push_back(v);
+    if (W <= 8 || (thorough && W <= 11)) for (u64 v = 0; v <= mx; ++v) vals.push_back(v);      // (every value of a 16-bit field costs two views and two serializations each: 11 bits is what fits the thorough budget)
     else { const u64 bs[] = {(u64)0, (u64)1, mx, mx - 1, mx >> 1, (mx >> 1) + 1, (u64)(0x5555555555555555ULL & mx), (u64)(0xaaaaaaaaaaaaaaaaULL & mx), (u64)(0x0102030405060708ULL & mx), (u64)(0x8000000000000001ULL & mx)}; for (u64 b : bs) vals.push_back(b);
         for (unsigned i = 0; i < W && i < 64; ++i) vals.push_back(1ULL << i); for (int i = 0; i < (thorough ? 300 : 150); ++i) vals.push_back(r.next() & mx); }
     const bool le = little_endian_class(f.owner); const std::set<size_t> der = derived_bytes(f.cls); auto spec = spec_table().find(f.key);
